@@ -383,6 +383,9 @@ func fsmStats(c *vCtx, v *fsmView, r *fsmRun) {
 		if s.Motion {
 			c.Count("motion_frames_observed", 1)
 		}
+		if s.Ev.Kind == evQuery {
+			c.Count("snapshot_queries", 1)
+		}
 		for _, op := range s.Ops[sinkMotion] {
 			if op.Op == opStart && op.Err || op.Op == opCheck && op.Err {
 				c.Count("refused_starts", 1)
@@ -410,7 +413,7 @@ func runFsmCaseFaults(c *vCtx, idx int64, prop string, oracle fsmOracle, cfg fsm
 			r.step(e)
 		}
 		return map[string]interface{}{"config": cfg.String(), "script": scriptString(evs),
-			"legend": "f=frame m=frame with motion aimed b=bad frame r=reset; suffix w=window closed c=disk check refuses x=file creation fails",
+			"legend": "f=frame m=frame with motion aimed b=bad frame r=reset q=snapshot query; suffix w=window closed c=disk check refuses x=file creation fails",
 			"trace":  traceString(r.steps, 80)}
 	}, func() {
 		r := newFsmRun(cfg)
@@ -474,6 +477,7 @@ func fsmRandomScript(rng *vRNG, cfg fsmConfig, n int, withFaults bool) []fsmEven
 	pMotion := rng.PickInt(5, 20, 50, 80, 95, 100)
 	pBad, pReset := 0, 0
 	pWin, pCheck, pStart := 0, 0, 0
+	pQuery := rng.PickInt(0, 0, 5, 30) // snapshot queries interleaved with the frames
 	if withFaults {
 		pBad = rng.PickInt(0, 0, 1, 3)
 		pReset = rng.PickInt(0, 0, 1, 2)
@@ -502,6 +506,8 @@ func fsmRandomScript(rng *vRNG, cfg fsmConfig, n int, withFaults bool) []fsmEven
 			e.Kind = evBad
 		} else if rng.Intn(100) < pReset {
 			e.Kind = evReset
+		} else if rng.Intn(100) < pQuery {
+			evs = append(evs, fsmEvent{Kind: evQuery})
 		}
 		e.WinClosed = winClosed || rng.Intn(100) < pWin/4
 		e.CheckFail = rng.Intn(100) < pCheck
